@@ -821,11 +821,15 @@ class Generator(AbstractODSGenerator):
         border_style: _BorderStyle
 
         previous_acquired_lot: Optional[InTransaction] = None
+        years_with_row: Set[int] = set()
         for entry in gain_loss_set:
             gain_loss: GainLoss = cast(GainLoss, entry)
             border_suffix: str = ""
             border_style = self.__get_border_style(gain_loss.taxable_event.timestamp.year, year)
-            if gain_loss.taxable_event.timestamp.year != year:
+            if gain_loss.taxable_event.timestamp.year not in years_with_row:
+                # First gain / loss row of this year: rows are sorted by instant, so with mixed UTC offsets around new year the rows
+                # of one (local) year are not necessarily contiguous.
+                years_with_row.add(gain_loss.taxable_event.timestamp.year)
                 self.__tax_sheet_year_2_row[_AssetAndYear(asset, gain_loss.taxable_event.timestamp.year)] = row_index + 1
             year = border_style.year
             border_suffix = border_style.border_suffix
